@@ -4,4 +4,5 @@ pub mod exec;
 pub mod harness;
 pub mod genr;
 pub mod props;
+pub mod recov;
 pub mod refimpl;
